@@ -18,6 +18,40 @@ def resolveTrace (m : Module) (t : Trace) : String :=
     | .ok c => c.toTok
     | .error _ => "unresolved"
 
+/-- `card`, `epilogue` (the position of a function's implicit epilogue: `[]` or one past the last
+    top-level card) or `other` -/
+def resolveKind (m : Module) (t : Trace) : String :=
+  let sub := t.ns.foldl (fun (acc : Option Module) n =>
+    acc.bind (fun m => (m.submodules.find? (fun p => p.1 == n)).map (·.2))) (some (withStd m))
+  match sub with
+  | none => "other"
+  | some sm =>
+    match Module.getCard sm { function := t.function, indices := t.indices } with
+    | .ok _ => "card"
+    | .error _ =>
+      match sm.functions[t.function]? with
+      | some (_, f) =>
+        if t.indices.isEmpty || (t.indices.length == 1 && t.indices.head! == f.cards.length) then "epilogue" else "other"
+      | none => "other"
+
+def sweepLoop (m : Module) (p : Prog) (cfg : Config) : Nat → Nat → Nat → Nat → Nat → String → Nat × Nat × Nat × String
+  | 0, _, errs, epi, other, first => (errs, epi, other, first)
+  | k+1, b, errs, epi, other, first =>
+    let (_, e) := run p b (VmState.fresh cfg)
+    match e with
+    | none => sweepLoop m p cfg k (b + 1) errs epi other first
+    | some e =>
+      let tr := errTrace p e
+      let kinds := tr.map (resolveKind m)
+      let epi' := epi + (kinds.filter (· == "epilogue")).length
+      let other' := other + (kinds.filter (· == "other")).length
+      let first' := if first.isEmpty then
+          match (tr.zip kinds).zipIdx.find? (fun x => x.1.2 != "card") with
+          | some ((t, _), i) => " first=budget:" ++ toString b ++ ",entry:" ++ toString i ++ "," ++ e.kind.name ++ ":" ++ showTrace t
+          | none => ""
+        else first
+      sweepLoop m p cfg k (b + 1) (errs + 1) epi' other' first'
+
 def trcStep (st : VmEngState) (args : List String) : String :=
   match args with
   | "run" :: m :: rest =>
@@ -33,6 +67,17 @@ def trcStep (st : VmEngState) (args : List String) : String :=
         | none => "ok"
         | some e =>
           "err:" ++ e.kind.name ++ " cards=[" ++ " ; ".intercalate ((errTrace p e).map (resolveTrace m)) ++ "]"
+  | "sweep" :: m :: rest =>
+    match Module.ofTok? m with
+    | none => "bad-op"
+    | some m =>
+      match compile m Gen.stdlib with
+      | .error e => "compile-" ++ showCErr e
+      | .ok prog =>
+        let p := Prog.ofProgram prog
+        let cfg : Config := { memLimit := 409600, stackSize := kv rest "stack" 256, callStackSize := 64 }
+        let (errs, epi, other, first) := sweepLoop m p cfg (kv rest "upto" 50) 1 0 0 0 ""
+        "sweep errors=" ++ toString errs ++ " unresolved_epilogue=" ++ toString epi ++ " unresolved_other=" ++ toString other ++ first
   | "compile" :: m :: _ =>
     match Module.ofTok? m with
     | none => "bad-op"
